@@ -247,6 +247,12 @@ pub fn run(ctx: &Ctx) {
             Expr::value("s"),
             Expr::Vec(vec![]),
             Expr::div(Expr::value(1), Expr::value(0)),
+            // the same conversion on both sides
+            Expr::uppercase(Expr::reff("vnone")),
+            Expr::lowercase(Expr::value("MiXed".to_string())),
+            Expr::int(Expr::reff("vnone")),
+            Expr::float(Expr::reff("vi")),
+            Expr::trim(Expr::value(" x ".to_string())),
         ];
         let facts = pool::map(&[
             ("vnan", Value::Float(f64::NAN)),
